@@ -141,9 +141,29 @@ Theorem eviction_eligible : forall (eps : Z) (E : env) (cs : list choice) (s s' 
 Proof. exact Eligible.eviction_eligible. Qed.
 Print Assumptions eviction_eligible.
 
-(* the hypotheses of the two main theorems hold for every session the codec builds *)
-Theorem built_sessions_satisfy_hypotheses : forall eps ns js ts,
-  clear (build eps ns js ts) /\ heap_ok (build eps ns js ts).
+(* ---------- faults ---------- *)
+
+(* Statement.Pipeline failing (a handler reports Event.Err for this placement): for EVERY fault
+   script the attempt is not assigned, leaves no operation behind and sends nothing to the evictor *)
+Theorem faulted_attempt_contributes_nothing : forall (eps : Z) (E : env) (k : akind) (s : sess) (p : task) (pq : positive)
+    (a : attempt) (s' : sess) (ok : bool) (v : Z) (lg : list arec),
+  ops s nsid = [] -> heap_ok s -> (t_id p, at_node a) ∈ e_faults E ->
+  run_attempt eps E k s p pq a = (s', ok, v, lg) ->
+  ok = false /\ evicts s' = evicts s /\ ops s' jsid = ops s jsid /\ ops s' nsid = [].
+Proof. exact Eligible.faulted_attempt_contributes_nothing. Qed.
+Print Assumptions faulted_attempt_contributes_nothing.
+
+(* cache.Evict refusing a victim at Commit: the victim is un-evicted and never appears in the
+   evictor log (its preemptor stays pipelined: a placement without its eviction, not the converse) *)
+Theorem refused_eviction_not_logged : forall (eps : Z) (E : env) (cs : list choice) (s s' : sess) (lg : list arec) (x : positive),
+  clear s -> heap_ok s -> run eps E s cs = (s', lg) ->
+  x ∈ refuse_evict s -> x ∈ evicts s' -> x ∈ evicts s.
+Proof. exact Eligible.refused_eviction_not_logged. Qed.
+Print Assumptions refused_eviction_not_logged.
+
+(* the hypotheses of the main theorems hold for every session the codec builds, with any fault script *)
+Theorem built_sessions_satisfy_hypotheses : forall eps ns js ts he rb re jr,
+  clear (upd_faults (build eps ns js ts) he rb re jr) /\ heap_ok (upd_faults (build eps ns js ts) he rb re jr).
 Proof. exact build_clear_heap_ok. Qed.
 Print Assumptions built_sessions_satisfy_hypotheses.
 
@@ -157,9 +177,9 @@ Theorem all_consulted_voters_respected_refuted :
 Proof. exact Eligible.all_consulted_voters_respected_refuted. Qed.
 Print Assumptions all_consulted_voters_respected_refuted.
 
-(* ---------- non-vacuity: a real cycle (harness seed 3, cycle-60: preempt with a rolled-back node
-   attempt and a committed eviction) replayed by the model ---------- *)
-Definition ex_toks : list Z := [2; 3; 1; 1; 750; 9961472; 3; 0; 2; 1; 3500; 5242880; 8; 1; 3; 1; 5000; 9961472; 9; 1; 1; 1; 1; 1; 0; 0; 5; 1; 1; 4; 0; 3; 2; 1; 3; 0; 2; 3; 1; 0; 0; 3; 4; 1; 0; 0; 2; 5; 1; 4; 0; 3; 14; 1; 1; 1; 1; 250; 1048576; 1; 6; 2; 1; 2; 1; 1; 2; 750; 1572864; 0; 6; 1; 1; 3; 1; 1; 2; 500; 3145728; 0; 6; 3; 0; 4; 1; 1; 1; 1250; 2621440; 0; 5; 3; 1; 5; 1; 1; 0; 0; 0; 0; 7; 1; 1; 6; 2; 1; 2; 1000; 0; 0; 1; 0; 0; 7; 2; 1; 2; 750; 1048576; 0; 6; 3; 1; 8; 2; 1; 1; 250; 3145728; 0; 5; 2; 1; 9; 3; 1; 1; 1250; 1048576; 0; 1; 0; 1; 10; 4; 1; 1; 1250; 2621440; 0; 8; 2; 1; 11; 5; 1; 2; 0; 0; 0; 6; 2; 1; 12; 5; 1; 1; 3000; 0; 0; 1; 0; 0; 13; 5; 1; 1; 1500; 2621440; 1; 6; 3; 1; 14; 5; 1; 2; 750; 3145728; 0; 1; 0; 1; 5; 1; 1; 0; 2; 0; 0; 3; 2; 0; 4; 3; 0; 5; 1; 0; 14; 1; 0; 2; 0; 3; 0; 4; 2; 5; 0; 6; 0; 7; 0; 8; 0; 9; 0; 10; 0; 11; 0; 12; 0; 13; 0; 14; 0; 1; 1; 0; 3; 0; 3; 2; 1; 1; 4; 1; 1; 1; 0; 0; 1; 3; 0; 1; 1; 1; 1; 1; 148000; 310378496; 1; 2; 1; 192; 4; 32000; 148000; 310378496; 1; 2; 1; 192; 4; 32000; 148000; 310378496; 1; 2; 1; 192; 4; 32000; 3; 1; 5; 1; 14; 1; 2; 2; 8; 1; 1; 8; 1; 2; 1; 6; 1; 2; 2; 11; 1; 0; 2; 5; 14; 1; 3; 1; 13; 1; 13].
+(* ---------- non-vacuity: a real cycle (harness seed 1, cycle-1584: a node attempt whose Pipeline
+   fails by a scripted handler fault and is rolled back, then a committed eviction on another node) replayed by the model ---------- *)
+Definition ex_toks : list Z := [2; 3; 1; 1; 1500; 3670016; 3; 0; 2; 1; 1000; 1048576; 2; 1; 3; 1; 1000; 4194304; 5; 0; 2; 1; 1; 2; 0; 0; 2; 1; 3; 0; 0; 3; 1; 1; 0; 0; 3; 2; 1; 1; 0; 3; 3; 1; 1; 0; 2; 5; 1; 1; 1; 0; 250; 2097152; 0; 1; 0; 0; 2; 1; 1; 0; 1500; 3145728; 0; 6; 1; 1; 3; 1; 1; 0; 1500; 1048576; 0; 8; 1; 1; 4; 2; 1; 0; 500; 0; 0; 1; 0; 1; 5; 3; 1; 2; 500; 1572864; 0; 1; 0; 1; 3; 1; 0; 0; 2; 3; 0; 3; 3; 0; 5; 1; 0; 2; 0; 3; 0; 4; 0; 5; 2; 2; 1; 0; 2; 0; 3; 1; 4; 1; 1; 2; 1; 1; 1; 3; 1; 1; 0; 1; 1; 3; 1; 1; 1; 2; 4; 1; 0; 1; 1; 44000; 109051904; 1; 2; 1; 64; 4; 0; 44000; 109051904; 1; 2; 1; 64; 4; 0; 44000; 109051904; 1; 2; 1; 64; 4; 0; 2; 1; 2; 1; 4; 2; 1; 1; 2; 1; 2; 2; 0; 0; 1; 3; 1; 5; 1; 1; 1; 2; 1; 2].
 
 Definition ex_result : option (list positive * nat * bool) :=
   match run_dec dCase ex_toks with
@@ -170,5 +190,5 @@ Definition ex_result : option (list positive * nat * bool) :=
   | None => None
   end.
 
-Example ex_run_commits_an_eviction : ex_result = Some ([13%positive], 2%nat, true).
+Example ex_run_commits_an_eviction : ex_result = Some ([2%positive], 2%nat, true).
 Proof. vm_compute. reflexivity. Qed.
